@@ -49,6 +49,18 @@ def _norm(cn, c, o):
     """(text, polarity) with comparisons normalised to a canonical operator / operand order."""
     s = strip(c, casts=True)
     ops = None
+    # `if (p)` for a pointer is `p != nullptr`
+    x = c
+    while x is not None and x.get("k") in ("ParenExpr", "ImplicitCastExpr", "ExprWithCleanups", "ConstantExpr"):
+        if x.get("k") == "ImplicitCastExpr" and x.get("ck") == "PointerToBoolean":
+            zero = "nullptr"
+            inner = strip((x.get("c") or [None])[0], casts=True)
+            if inner is not None and not (inner.get("k") == "BinaryOperator" and inner.get("op") in NEG):
+                ta, tb = sorted([cn.c(inner), zero])
+                return ("(%s == %s)" % (ta, tb), not o)
+            break
+        cc = x.get("c") or []
+        x = cc[0] if cc else None
     if s is not None and s.get("k") == "BinaryOperator" and s.get("op") in NEG:
         ops = (s["op"], s["c"][0], s["c"][1])
     elif s is not None and s.get("k") == "CXXOperatorCallExpr" and s.get("op") in NEG and len(s["c"]) == 3:
